@@ -2,7 +2,8 @@
    Only statements closed by [exact] of a lemma proved in Proofs/, the full statements that
    the pinned tree violates together with their [_refuted] witnesses, non-vacuity examples,
    and Print Assumptions. *)
-From Verif Require Import Lib.Base Lib.Utf8 Model.Csv Proofs.CsvBase Proofs.CsvFuel Proofs.CsvRoundtrip.
+From Verif Require Import Lib.Base Lib.Utf8 Model.Csv Proofs.CsvBase Proofs.CsvFuel Proofs.CsvRoundtrip
+  Proofs.CsvAccount Proofs.CsvChunks.
 
 (* ------------------------------------------------------------------------- *)
 (* separator / comment validation: interp.validCSVSeparator, validateCSVInputConfig *)
@@ -128,6 +129,23 @@ Proof.
 Qed.
 Print Assumptions C08_dollar0_refuted.
 
+(* ... and without a BOM in the call $0 is cut out of the call's own data: advance never
+   leaves the data, $0 = data[skip:advance] without its line terminator (CRs removed after a
+   CR LF inside quotes) whatever lies behind the data, and the slice cannot panic.  With a
+   BOM the advance is still in range (the Scanner never reports ErrAdvanceTooFar). *)
+Theorem C08_dollar0_partial : forall c s data stale nz e, valid_sep (c_sep c) -> 0 <= nz ->
+  match snd (scan c s data stale nz e) with
+  | ORecord adv tok fields =>
+      0 <= adv <= zlen data /\
+      ((st_noBOM s = true \/ prefix_of bom data = false) ->
+       exists skip cr, 0 <= skip <= adv /\ tok = finish_token cr (ztake (adv - skip) (zdrop skip data)))
+  | OHeader adv _ => 0 <= adv <= zlen data
+  | OPanic => st_noBOM s = false /\ prefix_of bom data = true
+  | _ => True
+  end.
+Proof. exact scan_accounting. Qed.
+Print Assumptions C08_dollar0_partial.
+
 (* the same through the whole reader: $0 of the first record is "a,b\nc,d" *)
 Example C08_bom_dollar0_witness :
   read_csv (mkCfg 44 0 false) 65536 10485760 [[239; 187; 191; 97; 44; 98; 10; 99; 44; 100; 10]]
@@ -152,6 +170,39 @@ Proof.
   vm_compute in H. discriminate H.
 Qed.
 Print Assumptions C08_chunk_refuted.
+
+(* ... and holds for every input that does not start with a BOM.  Three steps:
+   (1) a row decided before EOF is decided identically (advance, $0, fields, state) whatever
+       arrives later, whatever the buffer holds behind the data, and at EOF; *)
+Theorem C08_scan_stable : forall c s data stale nz more stale' nz' e',
+  valid_sep (c_sep c) -> 0 <= nz -> 0 <= nz' -> nobom s (data ++ more) ->
+  decided (snd (scan c s data stale nz false)) ->
+  scan c s (data ++ more) stale' nz' e' = scan c s data stale nz false.
+Proof. exact scan_stable. Qed.
+Print Assumptions C08_scan_stable.
+
+(* (2) a "need more data" answer leaves the splitter's state as it was; *)
+Theorem C08_need_more_keeps_state : forall c s data stale nz e s', nobom s data ->
+  scan c s data stale nz e = (s', ONeed) -> s' = s.
+Proof. exact scan_need_state. Qed.
+Print Assumptions C08_need_more_keeps_state.
+
+(* (3) hence the Scanner loop ([arun]: buffered bytes + reads still to come, one split call
+   per iteration, a read after every nil token, stop at EOF) delivers, for EVERY way of
+   cutting the input into reads, exactly the events (header names, $0, fields) of the
+   splitter run over the whole input. *)
+Theorem C08_chunk_independent_partial : forall c, valid_sep (c_sep c) -> forall chunks,
+  prefix_of bom (concat chunks) = false ->
+  arun (S (msr [] chunks false)) c (mkSt false 0) [] chunks false = read_file c (concat chunks).
+Proof. exact csv_chunk_independent. Qed.
+Print Assumptions C08_chunk_independent_partial.
+
+Example C08_ex_chunks :
+  let chunks := [[97; 44; 34]; [98; 10]; [99; 34; 10; 100]; [44; 101; 13]; [10; 102]] in
+  prefix_of bom (concat chunks) = false /\
+  arun (S (msr [] chunks false)) (mkCfg 44 0 true) (mkSt false 0) [] chunks false =
+  [EHeader [[97]; [98; 10; 99]]; ERecord [100; 44; 101] [[100]; [101]]; ERecord [102] [[102]]].
+Proof. vm_compute. split; reflexivity. Qed.
 
 Example C08_bom_split_witness :
   read_csv (mkCfg 44 0 true) 65536 10485760 [[239; 187; 191; 97; 44; 98]; [10; 49; 44; 50; 10]]
